@@ -6116,7 +6116,9 @@ impl Machine {
                 .prelude
                 .b;
 
-            if b <= b_cutoff {
+            // strictly: a cleaner whose scc_helper choice point is still the top of the
+            // stack belongs to a goal that is still running (reached by a cut inside it)
+            if b < b_cutoff {
                 self.machine_st.scc_block = prev_block;
 
                 if let Some(r) = dest.as_var() {
